@@ -143,7 +143,7 @@ for sk, sc, sd in SIDES:
 
 # ---------------------------------------------------------------- C10
 fam('c10_uci_struct_roundtrip', 'C10', 'c10::uci_struct_roundtrip', 's12', 65, 2400, 10, 'all semilegal moves of the group', quick='all')
-fam_side('c10_uci_accept_exact', 'C10', 'c10::uci_accept_exact', 's12', 65, 3600, 14, FULL + ' x every UCI move value (64 x 64 x 5 + null)')
+fam_side('c10_uci_accept_exact', 'C10', 'c10::uci_accept_exact', 's12', 65, 5400, 24, FULL + ' x every UCI move value (64 x 64 x 5 + null)')
 reg('c10_uci_parse_exact', 'C10', QT, 600, 6, 'every well-formed UTF-8 string of at most 6 bytes', 'c10::uci_parse_exact', unwind=8,
     props=['C10', 'C12'])
 reg('c10_uci_text_roundtrip', 'C10', T, 2400, 16, 'every UCI move value, through core::fmt', 'c10::uci_text_roundtrip', unwind=8,
@@ -170,7 +170,7 @@ for gk, gc, gd in GROUPS:
     for sk, sc, sd in SIDES:
         piece = gk in ('king', 'knight', 'bishop', 'rook', 'queen')
         k = 2 if piece and gk != 'king' else 16
-        reg('c09_san_from_move_%s_%s' % (sk, gk), 'C09', QT if gk in ('ep', 'castling', 'pspecial') else T, 5400, 16,
+        reg('c09_san_from_move_%s_%s' % (sk, gk), 'C09', QT if gk in ('ep', 'castling', 'pspecial') else T, 5400, 24,
             FULL + ('' if k == 16 else ' + GEN(2)') + '; legal moves: %s; %s' % (gd, sd),
             'c09::san_from_move::<_, %s, %s, %d>' % (sc, gc, k), 's123', 66,
             bounds='' if k == 16 else 'GEN(2): at most 2 own men per kind, so at most one competing candidate', props=['C09'])
@@ -193,23 +193,34 @@ reg('c12_fen_tail_12', 'C12', T, 3600, 12, 'FEN family (b): board field 4k3/8/8/
     'c12::fen_tail::<_, 12>', 's1', 66)
 
 # ---------------------------------------------------------------- C13 / C14 / C17
-CHAIN_STATES = [(0, 0), (0, 1), (0, 2), (0, 3), (1, 0), (1, 1), (1, 2), (1, 3), (2, 0), (2, 1), (3, 0), (3, 1), (4, 0), (4, 1), (5, 0), (5, 1), (5, 3), (5, 4)]
-QUICK_STATES = {(0, 0), (1, 1), (3, 0), (5, 4)}
-for st, pre in CHAIN_STATES:
-    for ok, oc in [('move', 'OP_PUSH_MOVE'), ('uci', 'OP_PUSH_UCI'), ('other', 'OP_OTHER')]:
-        q = (st, pre) in QUICK_STATES and ok != 'uci'
-        reg('c13_chain_step_s%d_p%d_%s' % (st, pre, ok), 'C13', QT if q else T, 3600, 14,
-            'chain state = stated start position %d after stated concrete prefix %d; one symbolic operation (%s), optionally followed by a pop' % (st, pre, ok),
-            'c13::chain_step::<_, %d, %d, {crate::c13::%s}>' % (st, pre, oc), 's13', 66,
+KGCODE = {'king': 1, 'pawn': 2, 'knight': 3, 'bishop': 4, 'rook': 5, 'queen': 6, 'pspecial': 7, 'ep': 8, 'castling': 9, 'null': 10, 'foreign': 11}
+# stated chain pre-states: (start, prefix) -> move-kind groups pushed there (plus 'uci' = any UCI value, 'other' = pop / outcome operations)
+CHAIN_CASES = {
+    (0, 0): ['castling', 'ep', 'pspecial', 'king', 'rook', 'pawn', 'foreign', 'null', 'uci', 'other'],
+    (0, 1): ['king', 'other'], (0, 2): ['ep', 'other'], (0, 3): ['king', 'rook', 'other'],
+    (1, 0): ['castling', 'ep', 'pspecial', 'king', 'uci', 'other'],
+    (1, 1): ['king', 'rook', 'other'], (1, 3): ['king', 'other'],
+    (2, 0): ['rook', 'king', 'castling', 'other'], (2, 1): ['king', 'other'],
+    (3, 0): ['queen', 'king', 'other'], (4, 0): ['king', 'rook', 'castling', 'other'],
+    (5, 0): ['knight', 'king', 'other'], (5, 3): ['knight', 'other'], (5, 4): ['knight', 'king', 'other'],
+}
+for (st, pre), ops in CHAIN_CASES.items():
+    for ok in ops:
+        code = {'uci': 20, 'other': 30}.get(ok) or KGCODE[ok]
+        reg('c13_chain_step_s%d_p%d_%s' % (st, pre, ok), 'C13', T, 3600, 12,
+            'chain state = stated start position %d after stated concrete prefix %d; one symbolic operation (%s), optionally followed by a pop'
+            % (st, pre, 'push of any move of group ' + ok if code < 20 else ('push of any UCI value' if code == 20 else 'pop / set / clear / reset / automatic outcome')),
+            'c13::chain_step::<_, %d, %d, %d>' % (st, pre, code), 's13', 66,
             bounds='pre-states from the stated finite sets START x PREFIX; BaseMoveChain<ArrRepeat>; two or more symbolic pushes are outside',
-            props=['C13', 'C14', 'C02', 'C04'])
-for st in range(6):
-    reg('c13_chain_eq_s%d' % st, 'C13', QT if st == 0 else T, 3600, 14, 'two chains from stated starts, one symbolic push and outcome each',
-        'c13::chain_eq::<_, %d>' % st, 's13', 66)
-for st, pre in [(0, 1), (1, 3), (5, 3), (2, 0)]:
-    reg('c17_walker_s%d_p%d' % (st, pre), 'C17', QT if (st, pre) in ((1, 3), (5, 3)) else T, 3600, 14,
-        'stated chain (start %d, prefix %d) extended by one symbolic accepted move; 6 symbolic walker operations' % (st, pre),
-        'c13::walker_steps::<_, %d, %d, 6>' % (st, pre), 's13', 66, bounds='chains of at most 9 moves; at most 6 walker operations')
+            props=['C13', 'C14'])
+for st, gk in [(0, 'pawn'), (0, 'king'), (0, 'castling'), (1, 'pspecial'), (4, 'king'), (5, 'knight')]:
+    reg('c13_chain_eq_s%d_%s' % (st, gk), 'C13', T, 3600, 12, 'two chains (same start / other clocks / no castling rights / another start), one symbolic push of group %s and outcome each' % gk,
+        'c13::chain_eq::<_, %d, %d>' % (st, KGCODE[gk]), 's13', 66)
+for st, pre, gk in [(1, 3, None), (5, 3, None), (5, 4, None), (0, 3, None), (0, 1, 'king'), (2, 0, 'rook')]:
+    reg('c17_walker_s%d_p%d_%s' % (st, pre, gk or 'concrete'), 'C17', T, 3600, 12,
+        'stated chain (start %d, prefix %d)%s; 6 symbolic walker operations' % (st, pre, ' extended by one symbolic accepted move of group ' + gk if gk else ''),
+        'c13::walker_steps::<_, %d, %d, %d, 6>' % (st, pre, KGCODE[gk] if gk else 0), 's13', 66, bounds='chains of at most 9 moves; at most 6 walker operations',
+        props=['C17', 'C04'])
 reg('c14_outcome_filter_table', 'C14', QT, 300, 4, 'all outcomes x 3 filters (exhaustive)', 'c14::outcome_filter_table')
 reg('c14_chain_outcome_precedence', 'C14', QT, 900, 8, 'all board outcomes x every usize count x 3 filters', 'c14::chain_outcome_precedence', 's5', 66)
 
@@ -228,14 +239,145 @@ for hk, hc in [('v', 'MV'), ('h', 'MH')]:
 PROPS = ['C%02d' % i for i in range(1, 21)]
 
 
+# ---------------------------------------------------------------- quick tier: fixed sets per property
+# (the special-move / king cases where the property texts and the seeded changes locate the risk, plus the cheap
+#  complete harnesses; everything else of the property is decided in the thorough tier only and named there)
+def _g(prefix, pairs):
+    return ['%s_%s_%s' % (prefix, sd, g) for sd, g in pairs]
+
+
+QUICK = {
+    'C01': _g('c01_prefiltered', [('w', 'ep'), ('b', 'ep'), ('w', 'king'), ('b', 'castling')]) + ['c06_semilegal_gen_pawns_all_w', 'c06_semilegal_gen_pawns_all_b'],
+    'C02': _g('c02_make_move_step', [('w', 'ep'), ('b', 'castling'), ('w', 'pspecial'), ('b', 'foreign')]) + ['c09_san_simple_pawn_refused', 'c09_san_into_move_castling_b',
+           'c10_uci_parse_exact', 'c13_chain_step_s0_p0_castling'],
+    'C03': _g('c03_make_unmake', [('w', 'pspecial'), ('b', 'pspecial'), ('w', 'ep'), ('b', 'ep'), ('w', 'castling'), ('b', 'castling'), ('b', 'king'), ('w', 'rook')]),
+    'C04': _g('c03_make_unmake', [('w', 'null'), ('b', 'null'), ('w', 'pspecial'), ('b', 'castling'), ('b', 'ep'), ('w', 'queen'), ('b', 'pspecial'), ('w', 'castling')]),
+    'C05': ['c05_hash_features', 'c05_scratch_hash_def'] + _g('c05_hash_delta', [('w', 'castling'), ('b', 'castling'), ('w', 'ep'), ('b', 'pspecial'), ('w', 'king'), ('b', 'rook')])
+           + _g('c03_make_unmake', [('w', 'pspecial'), ('b', 'ep')]),
+    'C06': ['c06_wellformed_exact'] + _g('c06_semilegal_validator', [(sd, g) for sd in 'wb' for g in ('king', 'pawn', 'knight', 'bishop', 'rook', 'queen', 'ep')]
+           + [('w', 'castling'), ('b', 'castling'), ('w', 'pspecial'), ('b', 'foreign')]) + ['c06_semilegal_gen_pawns_all_w', 'c06_semilegal_gen_pawns_all_b'],
+    'C07': ['c07_outcome_classification_w', 'c07_outcome_classification_b', 'c07_castling_never_only_move_w', 'c07_has_legal_moves_wiring_pawns_w',
+            'c07_has_legal_moves_wiring_pawns_b'],
+    'C09': ['c09_san_simple_pawn_refused', 'c09_san_into_move_castling_w', 'c09_san_into_move_pawnmove_b', 'c09_san_into_move_pawncapture_w',
+            'c09_san_from_move_w_ep', 'c09_san_from_move_b_castling', 'c12_san_parse_total_5'],
+    'C10': _g('c10_uci_struct_roundtrip', [(sd, g) for sd in 'wb' for g in ('king', 'pawn', 'knight', 'bishop', 'rook', 'queen', 'pspecial', 'ep', 'castling')])
+           + ['c10_uci_accept_exact_w', 'c10_uci_parse_exact'],
+    'C11': ['c11_validate_exact_w', 'c11_validate_exact_b'],
+    'C12': ['c12_coord_parse', 'c12_coord_roundtrip', 'c12_color_parse', 'c12_cell_parse', 'c12_castling_parse', 'c12_castling_roundtrip',
+            'c12_san_parse_total_5', 'c10_uci_parse_exact'],
+    'C13': ['c13_chain_step_s0_p0_castling', 'c13_chain_step_s0_p0_ep', 'c13_chain_step_s0_p0_pspecial', 'c13_chain_step_s1_p1_king', 'c13_chain_step_s0_p2_other',
+            'c13_chain_step_s5_p4_other', 'c13_chain_step_s3_p0_queen', 'c13_chain_eq_s0_pawn', 'c13_chain_eq_s0_king'],
+    'C14': ['c14_outcome_filter_table', 'c14_chain_outcome_precedence', 'c07_outcome_classification_w', 'c13_chain_step_s5_p4_other', 'c13_chain_step_s5_p4_knight',
+            'c13_chain_step_s3_p0_queen'],
+    'C15': ['c15_leapers_exact', 'c15_between_exact', 'c15_bishop_exact'],
+    'C16': ['c16_attackers_exact_w', 'c16_attackers_exact_b'],
+    'C17': ['c17_walker_s1_p3_concrete', 'c17_walker_s5_p4_concrete', 'c17_walker_s0_p1_king'],
+    'C18': ['c18_mirror_move_v_w_ep', 'c18_mirror_move_v_b_castling', 'c18_mirror_move_h_w_pspecial', 'c18_mirror_outcome_v_w', 'c18_mirror_outcome_h_b',
+            'c06_semilegal_gen_pawns_all_w', 'c06_semilegal_gen_pawns_all_b'],
+    'C19': ['c15_bishop_exact', 'c05_scratch_hash_def', 'c16_attackers_exact_w', 'c06_semilegal_validator_b_castling', 'c06_semilegal_validator_w_ep',
+            'c03_make_unmake_b_pspecial', 'c03_make_unmake_w_castling', 'c06_semilegal_gen_pawns_all_w', 'c11_validate_exact_b'],
+}
+
+
+# ---------------------------------------------------------------- thorough tier: fixed sets per property (patterns)
+# sized to finish within roughly 60-120 min on 16 cores / 62 GB (memory, not cores, is the limit); what a property's
+# harness families contain beyond these sets is listed in evidence as "not run in any tier" and is outside the claim
+THOROUGH = {
+    'C01': ['c01_prefiltered_*', 'c01_validate_?_ep', 'c01_validate_?_castling', 'c01_validate_?_king', 'c01_validate_?_pspecial', 'c01_validate_w_foreign',
+            'c01_validate_b_queen', 'c01_try_unchecked_?_ep', 'c01_try_unchecked_?_castling', 'c06_semilegal_gen_all_?', 'c06_semilegal_gen_capture_w',
+            'c06_semilegal_gen_simple_b', 'c06_semilegal_gen_simple_no_promote_w', 'c06_semilegal_gen_simple_promote_b', 'c06_semilegal_gen_pawns_all_?',
+            'c01_legal_gen_list_all_?', 'c01_legal_gen_list_capture_b', 'c01_legal_gen_list_simple_w'],
+    'C02': ['c02_make_move_step_?_*', 'c02_make_move_step_direct_w_ep', 'c02_make_move_step_direct_b_castling', 'c09_san_simple_pawn_refused',
+            'c09_san_into_move_castling_?', 'c09_san_into_move_pawnshort_w', 'c09_san_into_move_simple_b', 'c10_uci_accept_exact_?', 'c10_uci_parse_exact',
+            'c10_uci_string_readers_w', 'c13_chain_step_s0_p0_*', 'c13_chain_step_s1_p1_king'],
+    'C03': ['c03_make_unmake_*'],
+    'C04': ['c03_make_unmake_*', 'c04_nested_w_ep', 'c04_nested_b_castling', 'c04_nested_w_pspecial', 'c04_nested_b_king', 'c13_chain_step_s0_p1_other', 'c17_walker_s5_p3_concrete'],
+    'C05': ['c05_hash_features', 'c05_scratch_hash_def', 'c05_hash_delta_*', 'c03_make_unmake_?_pspecial', 'c03_make_unmake_?_ep', 'c03_make_unmake_?_castling',
+            'c11_validate_exact_w'],
+    'C06': ['c06_wellformed_exact', 'c06_semilegal_validator_*', 'c06_semilegal_gen_*'],
+    'C07': ['c07_*'],
+    'C09': ['c09_san_simple_pawn_refused', 'c09_san_into_move_*', 'c09_san_from_move_?_ep', 'c09_san_from_move_?_castling', 'c09_san_from_move_?_pspecial',
+            'c09_san_from_move_w_pawn', 'c09_san_from_move_b_king', 'c09_san_from_move_w_knight', 'c09_san_from_move_b_rook', 'c09_san_from_move_w_queen',
+            'c12_san_parse_total_5', 'c12_san_parse_total_7'],
+    'C10': ['c10_*'],
+    'C11': ['c11_*'],
+    'C12': ['c12_*', 'c10_uci_parse_exact', 'c10_uci_text_roundtrip'],
+    'C13': ['c13_chain_step_*', 'c13_chain_eq_*'],
+    'C14': ['c14_*', 'c07_outcome_classification_?', 'c13_chain_step_s5_*', 'c13_chain_step_s3_p0_*', 'c13_chain_step_s2_p0_rook', 'c13_chain_step_s4_p0_king'],
+    'C15': ['c15_*'],
+    'C16': ['c16_*'],
+    'C17': ['c17_*'],
+    'C18': ['c18_mirror_move_v_?_ep', 'c18_mirror_move_v_?_castling', 'c18_mirror_move_v_?_king', 'c18_mirror_move_v_w_pspecial', 'c18_mirror_move_v_b_pawn',
+            'c18_mirror_move_v_w_queen', 'c18_mirror_move_v_b_knight', 'c18_mirror_move_v_w_foreign', 'c18_mirror_move_h_?_pspecial', 'c18_mirror_move_h_?_ep',
+            'c18_mirror_move_h_w_king', 'c18_mirror_move_h_b_rook', 'c18_mirror_outcome_*', 'c18_mirror_gen_v_w', 'c18_mirror_gen_h_b', 'c06_semilegal_gen_pawns_all_?'],
+    'C19': ['c15_bishop_exact', 'c15_rook_exact', 'c05_scratch_hash_def', 'c16_attackers_exact_?', 'c06_semilegal_validator_?_castling', 'c06_semilegal_validator_?_ep',
+            'c06_semilegal_validator_w_queen', 'c06_semilegal_validator_b_pspecial', 'c03_make_unmake_?_pspecial', 'c03_make_unmake_?_castling', 'c03_make_unmake_w_ep',
+            'c06_semilegal_gen_all_?', 'c06_semilegal_gen_pawns_all_?', 'c11_validate_exact_?', 'c01_prefiltered_w_queen', 'c01_prefiltered_b_ep'],
+    'C20': ['c20_*', 'c12_coord_*', 'c12_color_parse', 'c12_cell_parse', 'c12_castling_*'],
+}
+
+
+QUICK['C20'] = [n for n in HARNESSES if n.startswith('c20_')] + ['c12_coord_parse', 'c12_color_parse', 'c12_cell_parse', 'c12_castling_parse']
+
+
 def harnesses_for(prop, tier):
-    return [n for n, h in HARNESSES.items() if prop in h['props'] and tier in h['tiers']]
+    import fnmatch
+    if tier == 'quick':
+        for n in QUICK.get(prop, []):
+            assert n in HARNESSES, n
+        return list(QUICK.get(prop, [n for n in HARNESSES if fnmatch.fnmatch(n, prop.lower() + '_*')]))
+    names = []
+    for pat in THOROUGH.get(prop, []):
+        hit = [n for n in HARNESSES if fnmatch.fnmatchcase(n, pat)]
+        assert hit, (prop, pat)
+        names += [n for n in hit if n not in names]
+    for n in QUICK.get(prop, []):      # thorough is a superset of quick
+        if n not in names:
+            names.append(n)
+    return names
+
+
+def family_rest(prop, tier_names):
+    """harnesses that exist for the property's families but are run in no tier (named in the evidence)"""
+    run = set(harnesses_for(prop, 'thorough'))
+    return sorted(n for n, h in HARNESSES.items() if prop in h['props'] and n not in run)
 
 
 # properties that also run engine B (MIR -> SMT-LIB)
 ENGINE_B = {'C15'}
 
-# prose: what lies outside the bounds of each property's check
-OUTSIDE = {}
+# prose: what lies outside the bounds of each property's check (copied into the evidence)
+GENO = ('generator-level clauses only within GEN bounds (quick: mover = king + at most two pawns; thorough: at most one man of each non-king kind; opponent '
+        'arbitrary); positions where the mover has more men of a kind are outside for generator clauses; ')
+OUTSIDE = {
+    'C01': GENO + 'per-move clauses are complete over all valid positions for the cases of the tier (quick: en passant both sides, white king moves, black castling; thorough: all cases of the prefiltered decision, selected cases of validate / apply-then-test)',
+    'C02': 'SAN candidate search within GEN(2); UCI strings > 6 bytes, SAN strings > 7 bytes; two or more symbolic chain operations in sequence; MoveChain<HashRepeat> (HashMap) itself',
+    'C03': 'nothing beyond the case list of the tier (thorough runs every case = all legal moves of all valid positions)',
+    'C04': 'nesting deeper than 2 is covered by induction on the one-step lemma, not by unrolling',
+    'C05': 'hash collisions between different positions; the cancellation argument (frame + delta) is outside the solver',
+    'C06': GENO + 'validator and well-formedness clauses are complete',
+    'C07': GENO + 'classification is complete over all valid positions given the probe answer',
+    'C09': 'text rendering (Display / core::fmt) and the exact parser grammar; disambiguation minimality with three or more like pieces; SAN strings > 7 bytes',
+    'C10': 'UCI strings > 6 bytes (rejected by the length test inside the bound)',
+    'C11': 'nothing: every raw board',
+    'C12': 'strings longer than the per-parser bound; FEN / move-list text outside the two structured families; re-formatting of SAN and FEN values',
+    'C13': 'pre-states outside START x PREFIX; two or more symbolic operations; HashRepeat',
+    'C14': 'as C13; the repetition count is universally quantified only in the precedence harness',
+    'C15': 'strictly-between values for non-aligned pairs (unspecified, unused)',
+    'C16': 'nothing: every valid position x square x colour',
+    'C17': 'chains longer than 9 moves, more than 6 walker operations; list text (core::fmt)',
+    'C18': GENO + 'per-move clauses for the cases of the tier',
+    'C19': 'the 256-move bound beyond GEN bounds; machine-code effects of undefined behaviour',
+    'C20': 'iteration over sets with more than 16 members is decided by the one-step lemma + induction',
+}
 # per-property method assumptions (besides stubs)
-ASSUME = {}
+ASSUME = {
+    'C02': ['validity of the successor is asserted through C11\'s conditions (validate_ref, normalise_ref); the direct try_from form runs in the thorough tier',
+            'history clause: induction over the one-step lemmas (DESIGN.md section 4)'],
+    'C04': ['arbitrary nesting depth: induction on the one-step lemma (DESIGN.md section 4)'],
+    'C05': ['frame + delta => scratch(after) = scratch(before) ^ delta: algebraic step outside the solver'],
+    'C01': ['legal list = semilegal list filtered by A (S6) composed with A = rules (prefiltered_legal_exact): one-line argument outside the solver'],
+    'C07': ['has_legal_moves <=> exists legal move: S6 wiring + filter exactness (C01) + castling lemma'],
+    'C13': ['BaseMoveChain<ArrRepeat>; transfers to HashRepeat assuming HashMap is a correct map and no Zobrist collision within a game'],
+    'C14': ['as C13'], 'C17': ['as C13'],
+}
